@@ -272,3 +272,16 @@ M('C11', 'token-ctor-wrong-token-id-slot', TOK, '        env.storage().instance(
 M('C11', 'token-ctor-skips-metadata-validation', TOK, '        if let Err(err) = validate_token_metadata(&token_metadata) {\n            panic_with_error!(env, err);\n        }\n', '', 'C11.R4')
 M('C11', 'its-transfers-token-ownership', ITS, '            if let Some(minter) = minter {\n                let token = InterchainTokenClient::new(env, &deployed_address);\n                token.remove_minter(&env.current_contract_address());\n                token.add_minter(&minter);',
   '            if let Some(minter) = minter {\n                let token = InterchainTokenClient::new(env, &deployed_address);\n                token.remove_minter(&env.current_contract_address());\n                StellarAssetClient::new(env, &deployed_address).set_admin(&minter);\n                token.add_minter(&minter);', 'C11.R5')
+
+# ---------------- C18 ----------------
+M('C18', 'remote-salt-not-bound-to-caller', ITS, '        let deploy_salt = Self::interchain_token_deploy_salt(env, caller.clone(), salt);\n\n        Self::deploy_remote_token', '        let deploy_salt = Self::interchain_token_deploy_salt(env, Address::zero(env), salt);\n\n        Self::deploy_remote_token', 'C18')
+M('C18', 'remote-skips-metadata-validation', ITS, '        ensure!(\n            validate_token_metadata(&token_metadata).is_ok(),\n            ContractError::InvalidTokenMetaData\n        );\n\n        let message = Message::DeployInterchainToken', '        let message = Message::DeployInterchainToken', 'C18.R3')
+M('C18', 'metadata-decimal-bound-loosened', STD_TOKEN, '        token_metadata.decimal <= u8::MAX.into(),', '        token_metadata.decimal <= u16::MAX.into(),', 'C18.R3')
+M('C18', 'remote-announces-minter', ITS, '            decimals: token_metadata.decimal as u8,\n            minter: None,\n        });', '            decimals: token_metadata.decimal as u8,\n            minter: Some(caller.clone().to_xdr(env)),\n        });', 'C18.R5')
+M('C18', 'remote-swaps-name-symbol', ITS, '            name: token.name(),\n            decimal: token.decimals(),\n            symbol: token.symbol(),', '            name: token.symbol(),\n            decimal: token.decimals(),\n            symbol: token.name(),', 'C18.R')
+M('C18', 'remote-unregistered-ok', ITS, '        let token_address = Self::token_id_config(env, token_id.clone())?.token_address;\n        let token = token::Client::new(env, &token_address);',
+  '        let token_address = Self::token_id_config(env, token_id.clone()).map(|c| c.token_address).unwrap_or(caller.clone());\n        let token = token::Client::new(env, &token_address);', 'C18.R3')
+M('C18', 'canonical-metadata-from-argument-token-equiv?', ITS, '        let deploy_salt = Self::canonical_token_deploy_salt(env, token_address);\n\n        let token_id =\n            Self::deploy_remote_token',
+  '        let deploy_salt = Self::canonical_token_deploy_salt(env, spender.clone());\n        let _ = token_address;\n\n        let token_id =\n            Self::deploy_remote_token', 'C18')
+M('C18', 'remote-moves-funds', ITS, '        InterchainTokenDeploymentStartedEvent {\n            token_id: token_id.clone(),\n            token_address,', '        token.transfer(&caller, &env.current_contract_address(), &1);\n        InterchainTokenDeploymentStartedEvent {\n            token_id: token_id.clone(),\n            token_address,', 'C18.R6')
+M('C18', 'remote-decimals-constant', ITS, '            decimals: token_metadata.decimal as u8,\n            minter: None,\n        });', '            decimals: 18,\n            minter: None,\n        });', 'C18.R5')
